@@ -68,7 +68,7 @@ def spec(case):
     if p.get("return_posteriors") is not None:
         amb.append("return_posteriors")      # deprecated: rejected, but not in the property's list
     mbl = _num(p.get("min_branch_length"))
-    if mbl is not None and not _gt0(mbl):
+    if mbl is not None and not (_gt0(mbl) and math.isfinite(float(mbl))):
         must.append("min_branch_length")
     ci = _num(p.get("constr_iterations"))
     if ci is not None:
